@@ -95,7 +95,7 @@ def edges_for_shape(rng, names, shape, p=0.5):
 def gen_dcop(rng, n_range=(1, 6), dom_range=(1, 3), shapes=("random",), arity3_p=0.0,
              unary_p=0.0, varcost_p=0.0, cost_classes=("small",), objective=None,
              str_domain_p=0.15, initial_p=0.0, renders=("matrix", "expr"),
-             edge_p=None, max_space=4096, names=None):
+             edge_p=None, max_space=4096, names=None, parallel_p=0.12, extra_unary=0):
     """Generate the problem part of a case."""
     objective = objective or rng.choice(["min", "max"])
     cls = rng.choice(list(cost_classes))
@@ -141,6 +141,13 @@ def gen_dcop(rng, n_range=(1, 6), dom_range=(1, 3), shapes=("random",), arity3_p
     for name in names:
         if rng.random() < unary_p:
             scopes.append([name])
+    # several constraints over the same scope are legal: duplicate some edges
+    if scopes and rng.random() < parallel_p:
+        for s_ in list(scopes):
+            if len(s_) >= 2 and rng.random() < 0.4:
+                scopes.append(list(s_))
+    for _ in range(extra_unary):
+        scopes.append([rng.choice(names)])
     constraints = []
     for i, scope in enumerate(scopes):
         if rng.random() < 0.5:
